@@ -190,6 +190,7 @@ CANONICAL = {
     'dtrail': '',        # after the last
     'titles': 'long',    # 'long' ~Version Information ... | 'short' ~V ... | 'cols' ~A followed by the curve names
     'eol': True,         # final newline present
+    'nl': '\n',          # line end: line feed, or carriage return + line feed as files written on DOS / Windows have
     'gaps': [],          # [[gap index, filler kind], ...]: gap g is before line g; gap len(lines) is after the last
 }
 
@@ -206,7 +207,7 @@ DEVIATIONS = [  # single non-gap deviations, simplest first
     ('predot', 1), ('predot', 7), ('uv', 7), ('precolon', 0), ('precolon', 7), ('postcolon', 0), ('postcolon', 7),
     ('lead', 1), ('lead', 7), ('trail', 1), ('trail', 7),
     ('sep', '\t'), ('sep', '  \t '), ('dlead', ' '), ('dlead', '\t '), ('dtrail', '  '), ('dtrail', ' \t'),
-    ('titles', 'short'), ('titles', 'cols'), ('eol', False),
+    ('titles', 'short'), ('titles', 'cols'), ('eol', False), ('nl', '\r\n'),
 ]
 
 TITLES = {
@@ -274,8 +275,8 @@ def render(content, layout=None):
         out.extend(fill.get(i, []))
         out.append(ln)
     out.extend(fill.get(len(lines), []))
-    text = '\n'.join(out)
-    return text + '\n' if lay['eol'] else text
+    text = lay['nl'].join(out)
+    return text + lay['nl'] if lay['eol'] else text
 
 
 def n_gaps(content, layout=None):
